@@ -1160,7 +1160,7 @@ func (s *c09Session) run(reqs []c09Req, rename bool) map[string]any {
 
 func genC09(c *Ctx) {
 	r := c.R
-	n := c.N(220, 6000)
+	n := c.N(220, 3000)
 	for i := 0; i < n; i++ {
 		sc := genC09Scenario(c, r)
 		s := c09Start(c, sc)
